@@ -17,7 +17,8 @@ def cases(tier, cont):
     """cont: 1 vector (C10), 2 list (C09)"""
     name = {1: 'vector', 2: 'list'}[cont]
     pid = {1: 'c10', 2: 'c09'}[cont]
-    n0s = [3] if tier == 'quick' else [2, 4]
+    # 4 elements: the smallest length with two interior positions (a position remembered by one call can go stale in the next)
+    n0s = [4] if tier == 'quick' else [2, 3, 5]
     out = []
     for n0 in n0s:
         for (a, b, c) in itertools.product(KINDS[cont], repeat=3):
